@@ -595,7 +595,7 @@ Termination == <>[]Finished
 PeerTold == \A r \in Roles : (result[r] \in {"fail", "stopped"} /\ ~dead[Peer(r)] /\ pc[r] = "done") => TRUE
 
 TypeOK ==
-    /\ rem \in 0..8 /\ Len(outst) <= Window /\ nann \in 0..(NF + 1)
+    /\ rem \in 0..8 /\ Len(outst) <= Window /\ nann \in 0..(NF + MaxFaults)
     /\ \A r \in Roles : result[r] \in {"run", "ok", "fail", "stopped", "stoppeddel", "refused"}
 
 =============================================================================
